@@ -625,6 +625,116 @@ def r15_7(chk, P):
                'already changed the state')
 
 
+
+def _dnf(F, e, pol, canon):
+    """condition e with truth pol as a disjunction of conjunctions of linear atoms ({term: coef}, const, op) over canonical
+    location names; an atom that is not a linear comparison is dropped (weaker, so nothing unsound can be proven)"""
+    e = F.strip_casts(e)
+    nd = F.ex[e]
+    k = nd['k']
+    if k == 'un' and nd['op'] == '!':
+        return _dnf(F, nd['c'][0], not pol, canon)
+    if k == 'bin' and nd['op'] in ('&&', '||'):
+        a, b = _dnf(F, nd['c'][0], pol, canon), _dnf(F, nd['c'][1], pol, canon)
+        conj = (nd['op'] == '&&') == pol
+        if conj:
+            return [x + y for x in a for y in b][:64]
+        return (a + b)[:64]
+
+    def lin(x):
+        x = F.strip_casts(x)
+        xn = F.ex[x]
+        if xn['k'] == 'int':
+            return ({}, xn['v'])
+        if xn['k'] == 'flt' and float(xn['v']).is_integer():
+            return ({}, int(xn['v']))
+        if xn['k'] in ('member', 'ref'):
+            return ({canon(x): 1}, 0)
+        return None
+    if k == 'bin' and nd['op'] in ('<', '<=', '>', '>=', '==', '!='):
+        a, b = lin(nd['c'][0]), lin(nd['c'][1])
+        if a is None or b is None:
+            return [[]]
+        op = nd['op']
+        if not pol:
+            op = {'<': '>=', '<=': '>', '>': '<=', '>=': '<', '==': '!=', '!=': '=='}[op]
+        d = dict(a[0])
+        for t, c in b[0].items():
+            d[t] = d.get(t, 0) - c
+        if op == '!=':
+            return [[(d, b[1] - a[1], '<')], [(d, b[1] - a[1], '>')]]
+        return [[(d, b[1] - a[1], op)]]
+    if k in ('member', 'ref'):
+        # truth of an integer location: != 0
+        if pol:
+            return [[({canon(e): 1}, 0, '>')], [({canon(e): 1}, 0, '<')]]
+        return [[({canon(e): 1}, 0, '==')]]
+    return [[]]
+
+
+def r15_13(chk, P):
+    chk.rule('R15.13', 'the hard limits reach the bitrate manager ordered: where a function stores both bitrate_manager_info.min_rate and '
+             '.max_rate from values that are not constants, the branch conditions that control the stores entail '
+             '"managed and both limits positive implies min <= max" (conditions expanded to a disjunction of linear conjunctions, '
+             'each refuted exactly with linrel).  vorbis_bitrate_addblock pads every packet up to the minimum and books the excess over '
+             'the maximum into the reservoir; with min > max the fill passes the reservoir size, the truncation length goes '
+             'negative and oggpack_writetrunc writes before the packet buffer (findings/replay_hard_min_above_max.c).  Only '
+             'OV_ECTL_RATEMANAGE2_SET checks the pair where it is given')
+    import linrel
+    n = 0
+    for F in P.functions():
+        st = {}
+        for e in F.nodes('assign'):
+            nd = F.ex[e]
+            l = F.ex[F.strip_casts(nd['c'][0])]
+            if nd['op'] == '=' and l['k'] == 'member' and l.get('record') == 'bitrate_manager_info' and l['field'] in ('min_rate', 'max_rate') \
+                    and common.const_val(F, nd['c'][1]) is None:
+                st[l['field']] = e
+        if len(st) != 2:
+            continue
+
+        def canon(x):
+            return F.s(F.strip_casts(x))
+        smin, smax = canon(F.ex[st['min_rate']]['c'][1]), canon(F.ex[st['max_rate']]['c'][1])
+        site = max(st.values(), key=lambda x: F.loc(x))
+        disj = [[]]
+        for c, pol in common.guard_conditions(F, site):
+            # operands must not be stored between the test and the site
+            txt = {canon(q) for q in F.walk(c) if F.ex[q]['k'] in ('member', 'ref')}
+
+            def mod(q, txt=txt):
+                qn = F.ex[q]
+                return qn['k'] == 'assign' and canon(qn['c'][0]) in txt
+            if any(cfg.search(F, F.pos[c], lambda q, m=m: q == m, lambda q: q == site or q == c) is not None and
+                   cfg.search(F, F.pos[m], lambda q: q == site, lambda q: q == c) is not None for m in [q for q in F.pos if mod(q)]):
+                continue
+            d2 = _dnf(F, c, pol, canon)
+            disj = [x + y for x in disj for y in d2][:256]
+        proven = True
+        for conj in disj:
+            p_ = linrel.Poly()
+            p_.add_ge({smin: 1}, 1).add_ge({smax: 1}, 1).add_ge({smin: 1, smax: -1}, 1)      # both positive and min > max
+            for (d, cst, op) in conj:
+                if op == '<':
+                    p_.add(d, cst - 1)
+                elif op == '<=':
+                    p_.add(d, cst)
+                elif op == '>':
+                    p_.add_ge(d, cst + 1)
+                elif op == '>=':
+                    p_.add_ge(d, cst)
+                elif op == '==':
+                    p_.add_eq(d, cst)
+            if not p_.empty():
+                proven = False
+                break
+        n += 1
+        chk.ob('R15.13', F.name, 'hard-limits-ordered-at-the-manager', proven, F.where(site),
+               f'min_rate <- `{smin}`, max_rate <- `{smax}`: ' + ('the controlling conditions exclude min > max with both positive' if proven else
+               'nothing on the way to these stores excludes a hard minimum above the hard maximum: vorbis_encode_setup_managed and '
+               'OV_ECTL_RATEMANAGE_HARD hand their arguments through unchecked'))
+    return n
+
 def run(chk, P):
     r15_7(chk, P)
     chk.floor('R15.7', 3)
@@ -642,6 +752,8 @@ def run(chk, P):
              'minimum / maximum a set-up may carry drive the search to either end)')
     c05.r05_11(common.Proxy(chk, 'R15.12'), P, rule='R15.12')
     chk.floor('R15.12', 6)
+    r15_13(chk, P)
+    chk.floor('R15.13', 1)
     r15_2(chk, P)
     chk.floor('R15.2', 8)
     r15_3(chk, P)
